@@ -101,10 +101,10 @@ Definition ops_cols (ops : pydict string pexpr) : list string := flat_map (fun k
 Section Print.
 Variable E : penv.
 
-Definition str_syn (s : string) : syn := SAtom (KStr (py_repr (e_np E) s)).
+Definition str_syn (s : string) : syn := SAtom (TkStr (py_repr (e_np E) s)).
 Definition strs_syn (l : list string) : syn := SList (map str_syn l).
-Definition bool_syn (b : bool) : syn := SAtom (KName (if b then "True" else "False")).
-Definition none_syn : syn := SAtom (KName "None").
+Definition bool_syn (b : bool) : syn := SAtom (TkName (if b then "True" else "False")).
+Definition none_syn : syn := SAtom (TkName "None").
 Definition expr_syn (x : pexpr) : option syn := option_map (fun e => str_syn (expr_text (e_F E) (e_np E) e)) (to_e x).
 
 Definition ops_syn (ops : list (string * pexpr)) : option syn :=
@@ -157,7 +157,7 @@ Fixpoint syn_of_op (p : eop) : option syn :=
       meth s "extend"
         (option_map (fun d =>
            [(None, d)]
-           ++ opt_arg w "partition_by" (if nonempty part then strs_syn part else SAtom (KInt 1))
+           ++ opt_arg w "partition_by" (if nonempty part then strs_syn part else SAtom (TkInt 1))
            ++ opt_arg (nonempty order) "order_by" (strs_syn order)
            ++ opt_arg (nonempty rev) "reverse" (strs_syn rev)) (ops_syn ops))
   | EProject s ops gb =>
@@ -173,7 +173,7 @@ Fixpoint syn_of_op (p : eop) : option syn :=
   | EOrder s cs rev limit =>
       meth s "order_rows"
         (Some ([(None, strs_syn cs)] ++ opt_arg (nonempty rev) "reverse" (strs_syn rev)
-               ++ match limit with Some n => [(Some "limit", SAtom (KInt (N.of_nat n)))] | None => [] end))
+               ++ match limit with Some n => [(Some "limit", SAtom (TkInt (N.of_nat n)))] | None => [] end))
   | EJoin a b oa ob jt =>
       match syn_of_op b with
       | Some sb => meth a "natural_join" (Some [(Some "b", sb); (Some "on", on_syn oa ob); (Some "jointype", str_syn jt)])
@@ -651,14 +651,14 @@ Fixpoint eval_syn (s : syn) : option pyv :=
       | a :: t => match eval_syn (snd a), go t with Some v, Some vs => Some ((fst a, v) :: vs) | _, _ => None end
       end in
   match s with
-  | SAtom (KStr l) => option_map YStr (py_unquote l)
-  | SAtom (KInt n) => Some (YInt n)
-  | SAtom (KName n) =>
+  | SAtom (TkStr l) => option_map YStr (py_unquote l)
+  | SAtom (TkInt n) => Some (YInt n)
+  | SAtom (TkName n) =>
       if String.eqb n "None" then Some YNone
       else if String.eqb n "True" then Some (YBool true)
       else if String.eqb n "False" then Some (YBool false)
       else None
-  | SAtom (KSym _) => None
+  | SAtom (TkSym _) => None
   | SList xs => option_map YList (elist xs)
   | STuple xs => option_map YTuple (elist xs)
   | SDict _ kvs =>
